@@ -1828,6 +1828,10 @@ func (w *World) evalBool(v ssa.Value, st *pathState, eval func(ssa.Value) (bool,
 					if c, isC := stripConv(mv.v).(*ssa.Const); isC && c.IsNil() {
 						return x.Op == token.EQL, true
 					}
+					// the rule's evaluator sees the test on the value itself
+					if b, ok := eval(&ssa.BinOp{Op: x.Op, X: mv.v, Y: pr[1]}); ok {
+						return b, true
+					}
 				}
 				// the error result of a callee that was expanded on this path
 				if st != nil && st.callTerm != nil {
